@@ -710,7 +710,7 @@ func ruleC20Dir(e *Env) {
 			continue
 		}
 		for _, k := range []int64{0, om, ou, om + ou + 1} {
-			ev := &pred.Evaluator{Prog: e.P.SSA, Oracle: noOracle{}}
+			ev := &pred.Evaluator{Prog: e.P.SSA, GlobalInit: e.globalTables(), Oracle: noOracle{}}
 			out, err := ev.Eval(fn, []pred.Val{pred.Const{V: constant.MakeInt64(k)}})
 			construct := fmt.Sprintf("constraint=%d", k)
 			if err != nil {
